@@ -43,6 +43,28 @@ Proof.
     try (split; [reflexivity|]; apply N.eqb_eq; assumption); try (apply N.eqb_eq; assumption).
 Qed.
 
+(* an accepted relocation holds every present component inside the new span: the bound is the
+   maximum over the components, whatever their order in the text (tel: URIs with '@' put an empty
+   password before the user) *)
+Theorem adjust_ok_fits u np u' : uri_adjust u np = (true, u') ->
+  Forall (fun f => po f <> 0 -> to16 (po f + 65536 - po (u_scheme u)) + pl f <= pl np) (uri_fields u).
+Proof.
+  unfold uri_adjust. cbv zeta. destruct (pl np <? _); [discriminate|].
+  destruct (po (u_user u) =? 0) eqn:E1, (po (u_pass u) =? 0) eqn:E2, (po (u_host u) =? 0) eqn:E3,
+           (po (u_port u) =? 0) eqn:E4, (po (u_params u) =? 0) eqn:E5, (po (u_headers u) =? 0) eqn:E6;
+    cbv beta iota;
+    (match goal with |- context [if ?c then (false, u) else _] => destruct c eqn:Ec end; [discriminate|]);
+    intros _; unfold uri_fields; repeat constructor; intros Hnz; try lia.
+Qed.
+(* hence a span too short for any one present component is refused, structure untouched *)
+Theorem adjust_too_short_refused u np f : In f (uri_fields u) -> po f <> 0 ->
+  pl np < to16 (po f + 65536 - po (u_scheme u)) + pl f -> uri_adjust u np = (false, u).
+Proof.
+  intros Hin Hnz Hlt. destruct (uri_adjust u np) as [ok u'] eqn:E. destruct ok.
+  - pose proof (adjust_ok_fits u np u' E) as HF. rewrite Forall_forall in HF. specialize (HF f Hin Hnz). lia.
+  - pose proof (adjust_refused_unchanged u np) as H. rewrite E in H. cbn in H. rewrite H by reflexivity. reflexivity.
+Qed.
+
 (* with everything inside the 16-bit range the move is exact: same bytes at the new place *)
 Theorem adjust_exact start offs f f' :
   moved start offs f f' -> po f <> 0 -> start <= po f -> po f - start + offs <= 65535 ->
